@@ -88,16 +88,14 @@ theorem c16_cache_sites :
     Gen.cachedFunctions ≠ [] ∧ ∀ c ∈ Gen.cachedFunctions, c.objectsMutated = 0 := by
   decide
 
-/-- translator obligation: outside the constructors no function of `_delb/xpath/ast.py` stores into
-    an expression object (or into anything else it did not create itself), constructors store into
-    `self` only, and the memoised properties are the three known ones -/
+/-- translator obligation: outside the constructors no function of `_delb/xpath/ast.py` - memoised
+    properties included - stores into an expression object (or into anything else it did not create
+    itself), and constructors store into `self` only.  (Names are not fixed: renaming a method or a
+    property does not touch this obligation; the table must not be empty.) -/
 theorem c16_ast_immutable :
     (∀ m ∈ Gen.astMethods, m.isConstructor = false → m.selfMutations = 0 ∧ m.foreignMutations = 0) ∧
     (∀ m ∈ Gen.astMethods, m.isConstructor = true → m.foreignMutations = 0) ∧
-    (∃ m ∈ Gen.astMethods, m.name = "LocationStep.evaluate") ∧
-    (Gen.astMethods.filter (·.isCachedProperty)).map (·.name) =
-      ["LocationStep._anders_predicates", "LocationStep._derived_attributes",
-       "XPathExpression._is_unambiguously_locatable"] := by
+    20 ≤ Gen.astMethods.length ∧ (∃ m ∈ Gen.astMethods, m.isConstructor = true) := by
   decide
 
 /-- translator obligation: no function of the tokenizer and the parser stores into anything it did
